@@ -90,6 +90,22 @@ void monitors_epilogue(Result &r, int64_t expected_illegal, int64_t expected_err
         r.violate("C07", "leak", "size=" + std::to_string(g_mon.live[0].size), std::to_string(g_mon.live.size()) + " block(s) allocated by the library were never freed");
 }
 
+bool documented_not_static(const char *api) {
+    static std::map<std::string, int> m;
+    static bool loaded = false;
+    if (!loaded) {
+        loaded = true;
+        const char *p = getenv("SIM_NOTSTATIC");
+        FILE *f = p ? fopen(p, "r") : NULL;
+        if (!f) { fprintf(stderr, "SIM_NOTSTATIC list missing; the driver writes it from /repo/include\n"); exit(3); }
+        char name[200]; int flag;
+        while (fscanf(f, "%199s %d", name, &flag) == 2) m[name] = flag;
+        fclose(f);
+    }
+    auto it = m.find(api);
+    return it != m.end() && it->second == 1;
+}
+
 extern "C" void sim_model_compression(uint32_t *state, const unsigned char *blocks, size_t n) {
     ref::sha256_compress(state, blocks, n);
 }
